@@ -227,9 +227,14 @@ def run_poison_probe(ctx, model):
     poisons = []
     for sd in seeds:
         poisons.extend(truncations(sd))
+    # ... and at every CHARACTER (the input ends inside a token: an unterminated quoted
+    # literal of each kind, half a keyword, half a number)
+    for sd in seeds[:5] + ["s eq 'it''s' and t eq duration'-P1DT2H' or g eq geography'SRID=1;P(''x'')' and u eq 'z'"]:
+        poisons.extend(sd[:i] for i in range(1, len(sd)))
     poisons = list(dict.fromkeys(poisons))
     probes = ABNF_UNSUPPORTED + ["a eq 1", "x/any(y: y/z eq 'q')", "my.f(a=1,b=2,c=3)", "a/b/c eq 1",
-                                 "contains(s, 'x')", "nosuchfunc(1)", "length()", "#"]
+                                 "contains(s, 'x')", "nosuchfunc(1)", "length()", "#",
+                                 "t eq duration'P1D' and s eq 'bob' and g eq geography'P' and s eq 'it''s'"]
     n = 0
     for i, poison in enumerate(poisons):
         if not ctx.mine(i):
